@@ -203,7 +203,7 @@ class ZorgFileCompiler(ZorgFileListener):
     ) -> None:  # noqa: D102
         words = ctx.getText().split(" ")
         if len(words) == 1:
-            key, value = words[0][1:-1].split("::")
+            key, value = words[0][1:-1].split("::", maxsplit=1)
         else:
             key = words.pop(0)[1:-2]
             value = " ".join(words)[:-1]
@@ -495,8 +495,9 @@ class ZorgFileCompiler(ZorgFileListener):
             )
             if any(
                 any(
-                    "::" in b.split()[0]
+                    "::" in word
                     for b in bullet.split(l2_bullet_prefix)[1:]
+                    for word in b.split()[:1]
                 )
                 for bullet in bullets
             ):
@@ -511,8 +512,9 @@ class ZorgFileCompiler(ZorgFileListener):
                 ]
             if any(
                 any(
-                    "::" in b.split()[0]
+                    "::" in word
                     for b in bullet.split(l3_bullet_prefix)[1:]
+                    for word in b.split()[:1]
                 )
                 for bullet in bullets
             ):
@@ -530,10 +532,14 @@ class ZorgFileCompiler(ZorgFileListener):
 
             for bullet in bullets:
                 words = bullet.split()
-                if zdt.is_short_date_spec(words[0]):
+                if words and zdt.is_short_date_spec(words[0]):
                     words.pop(0)
-                if zdt.is_zid(words[0]):
+                if words and zdt.is_zid(words[0]):
                     words.pop(0)
+                if not words:
+                    # An empty bullet (or a headline that only consists of a
+                    # modify date and/or ZID) defines no property.
+                    continue
                 first_word = words.pop(0)
                 if first_word.endswith("::"):
                     key = first_word[:-2]
